@@ -349,10 +349,35 @@ fn crystal_handles(st: &crate::state::AnyState) -> Vec<(usize, f64, f64)> {
     };
     let nsite = nparams.saturating_sub(3);
     let ncell = bounds.len().saturating_sub(nsite);
+    // which parameters have a handle is observed from the crate; the RANGE of each is the one the
+    // properties declare (C08): cell length [0.01, start], side ratio [0.1, start], cell angle
+    // [pi/6, pi/2], site coordinates [-1/2, 1/2], orientation [0, 2 pi] — not whatever the code under
+    // test happens to use
+    let p0: Vec<f64> = match st {
+        crate::state::AnyState::HardLine(s) => crate::state::params_of(s),
+        crate::state::AnyState::HardMol(s) => crate::state::params_of(s),
+        crate::state::AnyState::LJ(s) => crate::state::params_of(s),
+    }
+    .unwrap_or_default();
+    let pi = std::f64::consts::PI;
     bounds
         .iter()
         .enumerate()
-        .map(|(i, (lo, hi))| (if i < ncell { i } else { 3 + (i - ncell) }, *lo, *hi))
+        .map(|(i, (lo, hi))| {
+            let a = if i < ncell { i } else { 3 + (i - ncell) };
+            let v0 = p0.get(a).copied().unwrap_or(f64::NAN);
+            let (slo, shi) = match a {
+                0 => (0.01, v0),
+                1 => (0.1, v0),
+                2 => (pi / 6.0, pi / 2.0),
+                _ => match (a - 3) % 3 {
+                    0 | 1 => (-0.5, 0.5),
+                    _ => (0.0, 2.0 * pi),
+                },
+            };
+            let _ = (lo, hi);
+            (a, slo, shi)
+        })
         .collect()
 }
 
